@@ -38,45 +38,7 @@ def run(ctx) -> None:
     impls = execute_impl_funcs(db)
 
     # ---- R1 / R2 ----------------------------------------------------------------
-    for impl in impls:
-        calls = [c for c, cal in db.callees(impl) if cal.func in sss]
-        for c in calls:
-            loops = [a for a in ancestors(c) if isinstance(a, (ast.For, ast.AsyncFor, ast.While)) and contains(impl.node, a)]
-            ok = len(loops) == 1 and isinstance(loops[0], ast.For)
-            why = "superstep call is not inside exactly one for loop"
-            if ok:
-                lp = loops[0]
-                it = lp.iter
-                ok = isinstance(it, ast.Call) and dotted(it.func) == "range" and len(it.args) == 1 and not it.keywords
-                why = f"loop iterates '{src(it)[:40]}', not range(<bound>)"
-                if ok:
-                    b = it.args[0]
-                    ok = isinstance(b, ast.Name) and b.id in impl.param_names and b.id not in db.local_defs(impl) and "iter" in b.id
-                    why = f"step loop bound is range({src(b)}) — the unmodified max_iterations parameter" if ok else f"loop bound '{src(b)}' is not the unmodified max_iterations parameter"
-                    # the loop target must not be used to extend the loop; no nested loop re-entering
-                    if ok and any(isinstance(x, ast.While) for x in walk_local(lp)):
-                        ok, why = False, "a while loop inside the step loop can run supersteps unboundedly"
-            rep.add("C04.R1", f"{impl.qname}:superstep-call", ok, f"{impl.module.rel}:{c.lineno}", why)
-            # R2: else branch
-            if ok:
-                lp = loops[0]
-                okb = False
-                whyb = "the step loop has no else branch: exhausting max_iterations returns silently"
-                if lp.orelse:
-                    raises = [n for s in lp.orelse for n in [s] + list(walk_local(s)) if isinstance(n, ast.Raise)]
-                    whyb = "else branch does not raise"
-                    for r in raises:
-                        e = r.exc
-                        if isinstance(e, ast.Call) and "ExecutionError" in src(e.func) and len(e.args) >= 2:
-                            inner = e.args[0]
-                            g = enclosing(r, (ast.If,))
-                            cond_ok = g is not None and any(isinstance(x, ast.Call) and "get_ready_nodes" in call_names(db, x, impl) for x in ast.walk(g.test))
-                            inner_ok = isinstance(inner, ast.Call) and "InfiniteLoopError" in src(inner.func) and inner.args and src(inner.args[0]) == src(lp.iter.args[0])
-                            svars = {nm for nm, ds in db.local_defs(impl).items() if any(isinstance(d, ast.Assign) and isinstance(d.value, ast.Call) and "initialize_state" in call_names(db, d.value, impl) for d in ds)}
-                            state_ok = isinstance(e.args[1], ast.Name) and e.args[1].id in svars
-                            okb = cond_ok and inner_ok and state_ok
-                            whyb = "exhaustion raises ExecutionError(InfiniteLoopError(bound), state) when nodes are still ready" if okb else f"exhaustion report malformed (ready-check={cond_ok}, InfiniteLoopError(bound)={inner_ok}, carries state={state_ok})"
-                rep.add("C04.R2", f"{impl.qname}:for-else", okb, f"{impl.module.rel}:{lp.lineno}", whyb)
+    check_step_loop(ctx, "C04.R1", "C04.R2")
     for m in template_methods(db, "run"):
         for c in db.calls_in(m):
             if call_names(db, c, m) & {"_execute_graph_impl", "_execute_graph_impl_async"}:
@@ -179,6 +141,54 @@ def run(ctx) -> None:
     _r5(ctx)
 
 
+def check_step_loop(ctx, r_bound: str, r_exh: str) -> None:
+    """Supersteps are bounded by one for-range loop over max_iterations; exhausting it raises
+    ExecutionError(InfiniteLoopError(bound), state) only if a fresh scheduler query on the final state still
+    finds ready nodes (a graph that becomes quiescent on its last allowed step completes)."""
+    db, rep = ctx.db, ctx.rep
+    sss = set(superstep_funcs(db))
+    impls = execute_impl_funcs(db)
+    for impl in impls:
+        calls = [c for c, cal in db.callees(impl) if cal.func in sss]
+        for c in calls:
+            loops = [a for a in ancestors(c) if isinstance(a, (ast.For, ast.AsyncFor, ast.While)) and contains(impl.node, a)]
+            ok = len(loops) == 1 and isinstance(loops[0], ast.For)
+            why = "superstep call is not inside exactly one for loop"
+            if ok:
+                lp = loops[0]
+                it = lp.iter
+                ok = isinstance(it, ast.Call) and dotted(it.func) == "range" and len(it.args) == 1 and not it.keywords
+                why = f"loop iterates '{src(it)[:40]}', not range(<bound>)"
+                if ok:
+                    b = it.args[0]
+                    ok = isinstance(b, ast.Name) and b.id in impl.param_names and b.id not in db.local_defs(impl) and "iter" in b.id
+                    why = f"step loop bound is range({src(b)}) — the unmodified max_iterations parameter" if ok else f"loop bound '{src(b)}' is not the unmodified max_iterations parameter"
+                    # the loop target must not be used to extend the loop; no nested loop re-entering
+                    if ok and any(isinstance(x, ast.While) for x in walk_local(lp)):
+                        ok, why = False, "a while loop inside the step loop can run supersteps unboundedly"
+            rep.add(r_bound, f"{impl.qname}:superstep-call", ok, f"{impl.module.rel}:{c.lineno}", why)
+            # R2: else branch
+            if ok:
+                lp = loops[0]
+                okb = False
+                whyb = "the step loop has no else branch: exhausting max_iterations returns silently"
+                if lp.orelse:
+                    raises = [n for s in lp.orelse for n in [s] + list(walk_local(s)) if isinstance(n, ast.Raise)]
+                    whyb = "else branch does not raise"
+                    for r in raises:
+                        e = r.exc
+                        if isinstance(e, ast.Call) and "ExecutionError" in src(e.func) and len(e.args) >= 2:
+                            inner = e.args[0]
+                            g = enclosing(r, (ast.If,))
+                            cond_ok = g is not None and any(isinstance(x, ast.Call) and "get_ready_nodes" in call_names(db, x, impl) for x in ast.walk(g.test))
+                            inner_ok = isinstance(inner, ast.Call) and "InfiniteLoopError" in src(inner.func) and inner.args and src(inner.args[0]) == src(lp.iter.args[0])
+                            svars = {nm for nm, ds in db.local_defs(impl).items() if any(isinstance(d, ast.Assign) and isinstance(d.value, ast.Call) and "initialize_state" in call_names(db, d.value, impl) for d in ds)}
+                            state_ok = isinstance(e.args[1], ast.Name) and e.args[1].id in svars
+                            okb = cond_ok and inner_ok and state_ok
+                            whyb = "exhaustion raises ExecutionError(InfiniteLoopError(bound), state) when nodes are still ready" if okb else f"exhaustion report malformed (ready-check={cond_ok}, InfiniteLoopError(bound)={inner_ok}, carries state={state_ok})"
+                rep.add(r_exh, f"{impl.qname}:for-else", okb, f"{impl.module.rel}:{lp.lineno}", whyb)
+
+
 def check_stale_comparator(ctx, rule: str):
     """Staleness is decided per input: the current version of a parameter is compared with the version of
     the *same* parameter the node consumed last time; equal -> fresh, greater -> stale."""
@@ -232,13 +242,31 @@ def _r5(ctx) -> None:
     check_node_options_used(ctx, "C04.R6")
 
 
+def _deletes_decisions(n) -> bool:
+    return n.kind == "stmt" and ((isinstance(n.ast, ast.Delete) and "routing_decisions" in src(n.ast)) or (isinstance(n.ast, ast.Expr) and isinstance(n.ast.value, ast.Call) and isinstance(n.ast.value.func, ast.Attribute) and n.ast.value.func.attr == "pop" and "routing_decisions" in src(n.ast)))
+
+
+def stale_clearers(ctx) -> list:
+    """Functions called from the activation computation that delete routing decisions (found by role)."""
+    db = ctx.db
+    gan = db.func("runners._shared.helpers._get_activated_nodes")
+    out = []
+    for _, cal in db.callees(gan):
+        g = cal.func
+        if g is not None and g not in out and any(_deletes_decisions(n) for n in ctx.cfg(g).nodes):
+            out.append(g)
+    return out
+
+
 def check_end_never_cleared(ctx, rule: str) -> None:
     db, rep = ctx.db, ctx.rep
-    f = db.func("runners._shared.helpers._clear_stale_gate_decisions")
+    fs = stale_clearers(ctx)
+    if not fs:
+        rep.bad(rule, "runners._shared.helpers._get_activated_nodes:stale-decisions-deleted", "src/hypergraph/runners/_shared/helpers.py:1", "no function called by the activation computation deletes the decisions of gates that will re-execute: a stale decision that is merely ignored comes back to life when the gate's re-execution writes nothing (a cached gate replayed with decision None), and its old target starts again")
+        return
+    f = fs[0]
     cfg = ctx.cfg(f)
-    dels = [n for n in cfg.nodes if n.kind == "stmt" and ((isinstance(n.ast, ast.Delete) and "routing_decisions" in src(n.ast)) or (isinstance(n.ast, ast.Expr) and isinstance(n.ast.value, ast.Call) and isinstance(n.ast.value.func, ast.Attribute) and n.ast.value.func.attr == "pop" and "routing_decisions" in src(n.ast)))]
-    if not dels:
-        raise AnalysisError("stale-decision clear: deletion not found")
+    dels = [n for n in cfg.nodes if _deletes_decisions(n)]
     # tests of the form `<stored decision> is END`
     end_tests = [n for n in cfg.nodes if n.kind == "test" and isinstance(n.ast, ast.Compare) and len(n.ast.ops) == 1 and isinstance(n.ast.ops[0], (ast.Is, ast.IsNot)) and src(n.ast.comparators[0]) == "END" and "routing_decisions" in _expand(cfg, n)]
     ok = bool(end_tests)
